@@ -88,7 +88,7 @@ def run(ctx):
     ctx.not_decided = "read(write(k)) == k for keys and signatures; allocation by declared response length in the stream impl"
     ctx.rule_text = "PANIC(entries, table) + DOM verification of guards + sibling contradiction check"
     review = Review(TABLE)
-    panic.run_panic(ctx, ENTRIES, in_scope, review, "c27", floor_fns=20, floor_sources=13, auto=auto)
+    panic.run_panic(ctx, ENTRIES, in_scope, review, "c27", floor_fns=12, floor_sources=8, auto=auto)
     # sibling contradiction: functions that index the response `resp[0]`
     sib = []
     for fn in db.find(r"^radicle_ssh::agent::client::AgentClient::"):
